@@ -12,7 +12,7 @@ for d in $DIRS; do
   git -C /repo worktree add -q $wt HEAD || continue
   ( cd $wt && git apply $OLDPWD/$d/patch.diff 2>/dev/null || git apply -3 $OLDPWD/$d/patch.diff 2>/dev/null ) || { echo "$name PATCH-DOES-NOT-APPLY"; git -C /repo worktree remove --force $wt; continue; }
   ( cd $wt && timeout 600 /venv/bin/python /verif/$d/demo.py >/dev/null 2>&1 ); demo=$?
-  checks=$(python3-vt -c "import json,re; m=json.load(open('$d/meta.json')); print(' '.join(sorted(set(re.findall(r'C\d\d', m['caught_by'])))) or m['property'])")
+  checks=$(python3-vt -c "import json,re; m=json.load(open('$d/meta.json')); o=[m['property']]+[c for c in sorted(set(re.findall(r'C\d\d', m['caught_by']))) if c!=m['property']]; print(' '.join(o))")
   res=""
   for c in $checks; do
     out=$(REPO_ROOT=$wt timeout 3000 bin/check $c --tier quick 2>&1); rc=$?
